@@ -262,6 +262,31 @@ fn literal_cases(ctx: &Ctx) -> Vec<(Case, bool)> {
             for_(list(vec![var("k"), var("v")]), var("x"), vec![pv(list(vec![var("k"), var("v")]))]),
         ]),
     ];
+    // Sizes beyond any small-collection fast path: literals of 21..40
+    // entries with duplicated keys at several positions, large spreads with
+    // overrides, and `for` directly over an out-of-order literal.
+    let mut progs = progs;
+    for n in [20usize, 21, 22, 30, 40] {
+        for dup_at in [0usize, 1, n / 2, n - 1] {
+            for dup_of in [0usize, n / 3, n - 2] {
+                let mut props: Vec<Prop> = (0..n).map(|i| pair(&format!("k{i:02}"), int(i as i64))).collect();
+                props.insert(dup_at.min(props.len()), pair(&format!("k{dup_of:02}"), int(1000 + dup_at as i64)));
+                props.reverse();
+                let lit = obj(props);
+                progs.push(("large literal with a duplicated key", vec![declare(o(), lit), pv(index(o(), string(&format!("k{dup_of:02}")))), pv(o())]));
+            }
+        }
+        let base: Vec<Prop> = (0..n).rev().map(|i| pair(&format!("k{i:02}"), int(i as i64))).collect();
+        progs.push(("large spread with overrides before and after", vec![
+            declare(var("big"), obj(base)),
+            pv(obj(vec![pair("k00", int(-1)), pair("zz", int(-2)), Prop::Single{e: var("big"), spread: true, collect: false}, pair("k01", int(-3)), pair(&format!("k{:02}", n - 1), int(-4))])),
+            pv(bin(Op::Eq, obj(vec![Prop::Single{e: var("big"), spread: true, collect: false}, Prop::Single{e: var("big"), spread: true, collect: false}]), var("big"))),
+        ]));
+    }
+    progs.push(("for directly over an out-of-order literal", vec![
+        for_(list(vec![var("k"), var("v")]), obj(vec![pair("b", int(0)), pair("a", int(1)), pair("", int(2)), pair("a b", int(3)), pair("B", int(4)), pair("a", int(5))]), vec![pv(list(vec![var("k"), var("v")]))]),
+        for_(var("kv"), obj(vec![pair("z", int(1)), Prop::Single{e: obj(vec![pair("y", int(2))]), spread: true, collect: false}, pair("x", int(3))]), vec![pv(var("kv"))]),
+    ]));
     for (name, stmts) in progs {
         let prog = Prog::new(stmts);
         let rr = interp::run(&prog);
